@@ -1087,6 +1087,15 @@ class Holder:
     label: str
     items: typing.Dict[str, Scale] = dataclasses.field(default_factory=dict)
     gauges: typing.List[Gauge] = dataclasses.field(default_factory=list)
+import typing_extensions
+class ExtStamp(typing_extensions.TypedDict):
+    # declared through the backport (ReadOnly, NotRequired on older interpreters): a TypedDict like any other
+    when: datetime.date
+    count: int
+@dataclasses.dataclass
+class StampHolder:
+    stamp: ExtStamp
+    stamps: typing.List[ExtStamp] = dataclasses.field(default_factory=list)
 """
 
 
@@ -1095,8 +1104,10 @@ def _proto_child(_job):
     import types
     import warnings
     warnings.simplefilter("ignore")
+    import dataclasses
     import datetime
     import decimal
+    import typing
     import typelib
     mod = types.ModuleType("vm_c05_proto")
     sys.modules["vm_c05_proto"] = mod
@@ -1123,6 +1134,21 @@ def _proto_child(_job):
             m = f"raised {type(e).__name__}"
         if m != mexp:
             bad.append(f"marshal({cls.__name__}(...)) = {m!r}; members by their own routines: {mexp!r}")
+    sw, sv = {"when": "2021-03-04", "count": "7"}, {"when": typelib.unmarshal(datetime.date, "2021-03-04"), "count": typelib.unmarshal(int, "7")}
+    sm = {"when": typelib.marshal(sv["when"]), "count": 7}
+    for label, f, want in (("unmarshal(ExtStamp, <mapping>)", lambda: typelib.unmarshal(mod.ExtStamp, dict(sw)), sv),
+                           ("unmarshal(ExtStamp, <pairs>)", lambda: typelib.unmarshal(mod.ExtStamp, list(sw.items())), sv),
+                           ("marshal(<ExtStamp value>, t=ExtStamp)", lambda: typelib.marshal(dict(sv), t=mod.ExtStamp), sm),
+                           ("unmarshal(List[ExtStamp], ...)", lambda: typelib.unmarshal(typing.List[mod.ExtStamp], [dict(sw)]), [sv]),
+                           ("unmarshal(StampHolder, ...)", lambda: dataclasses.asdict(typelib.unmarshal(mod.StampHolder, {"stamp": dict(sw), "stamps": [dict(sw)]})),
+                            {"stamp": sv, "stamps": [sv]}),
+                           ("marshal(StampHolder(...))", lambda: typelib.marshal(mod.StampHolder(dict(sv), [dict(sv)])), {"stamp": sm, "stamps": [sm]})):
+        try:
+            got = f()
+        except Exception as e:  # noqa: BLE001
+            got = f"raised {type(e).__name__}"
+        if got != want:
+            bad.append(f"{label} = {got!r}; members by their own routines: {want!r}")
     try:
         h = typelib.unmarshal(mod.Holder, {"label": 7, "items": {"k": wire}, "gauges": [wire]})
         got = (h.label, fields(h.items["k"]), fields(h.gauges[0]))
